@@ -1,4 +1,6 @@
 import Ufw.Props.C10
+import Ufw.Tie.PstFns.Trivialsum
+import Ufw.Tie.PstFns.Layout
 #print axioms Ufw.Props.C10.part_bounds
 #print axioms Ufw.Props.C10.checksum_chunking
 #print axioms Ufw.Props.C10.validate_iff
@@ -9,3 +11,13 @@ import Ufw.Props.C10
 #print axioms Ufw.Props.C10.sum16_streamable
 #print axioms Ufw.Props.C10.sum32_streamable
 #print axioms Ufw.Props.C10.crc16_streamable
+#print axioms Ufw.Tie.PstFns.zx0
+#print axioms Ufw.Tie.PstFns.body
+#print axioms Ufw.Tie.PstFns.loop1_spec
+#print axioms Ufw.Tie.PstFns.gen_trivialsum
+#print axioms Ufw.Tie.PstFns.gen_trivialsum_oob
+#print axioms Ufw.Tie.PstFns.c_trivialsum_streamable
+#print axioms Ufw.Tie.PstFns.gen_checksum_size
+#print axioms Ufw.Tie.PstFns.checksum_size_width
+#print axioms Ufw.Tie.PstFns.gen_set_data_address
+#print axioms Ufw.Tie.PstFns.gen_persistent_place
